@@ -55,6 +55,12 @@ PROPS = {
     "C13": dict(module="C13", suites=DYN, technique=_T, design_ref="DESIGN.md §8 C13",
                 note=_N + " Partial by nature: storage aliasing is a NumPy runtime fact no Lean model exhibits; it is decided on the implementation (bytes of argument/current state/last obs/steps before vs after, np.shares_memory) for every explored transition.",
                 text="step = generative step from the current state + install (definitional shape, rfl); generative steps leave the environment untouched and are transparent in any history; runtime purity checked directly on the implementation."),
+    "C17": dict(module="C17", suites=["load"], technique=_T, design_ref="DESIGN.md §8 C17",
+                note="The model starts at the object PyYAML's FullLoader returns (PyYAML trusted). Address keys are modelled for the documented '(int, int)' spelling only (Python eval of other spellings is outside the model); math.isclose on host values is modelled as equality. LOAD suite: the 9 shipped files + random documents in the documented format (key spelling variants, 'none' OS in any capitalisation, prob 0/1, empty escalation section, host values of any sign, with/without step limit, host firewalls, shuffled host order) - accept + canonical scenario dump compared field by field; one loaded document per batch explored exhaustively through the DYN machinery (end-to-end).",
+                text="C17_accepts: every document satisfying the documented format DocFormat loads to build(sections); C17_denotes + field theorems (subnets, topology, names, sensitive hosts, exploits/escalations with access and OS normalisation, scan costs, step limit, firewall, hosts with flags/value/deny-lists): whatever is accepted is exactly what the file says."),
+    "C18": dict(module="C18", suites=["load"], technique=_T, design_ref="DESIGN.md §8 C18",
+                note="Same modelling scope as C17. LOAD suite applies every single-rule mutation of the catalogue (37 rules, several variants each) to every base document (shipped + random) plus a malformed stream: both sides must reject; an exception of any type counts as rejection.",
+                text="26 theorems C18_*: for every document, breaking a catalogue rule (missing/unknown/mistyped section, empty or non-positive subnets, wrong-shape or non-0/1 topology, empty/duplicated name lists, invalid/duplicate/non-positive sensitive hosts, defective exploits/escalations, negative scan cost, missing/superfluous/defective host configurations incl. malformed host firewall and contradicting sensitive value, missing/non-list/duplicated/unknown-service firewall rules, non-positive step limit) makes load return an error."),
 }
 
 
